@@ -131,11 +131,13 @@ def from_xyz(ctx, prog, rule):
     arrays = _arrays(m, R)
     proto = None
     point = None
+    point_block = None
     for bi, si, elems in arrays:
         if len(elems) == 6 and all(e[0] == "const" and "Record" in e[1] for e in elems):
             proto = [e[2] if isinstance(e[2], str) else tree_str(e) for e in elems]
         if len(elems) == 6 and all(e[0] == "agg" and e[1][0] == "adt" and e[1][1].endswith("RecordValue") for e in elems):
             point = elems
+            point_block = bi
     wantp = ["CARTESIAN_X_F32", "CARTESIAN_Y_F32", "CARTESIAN_Z_F32", "COLOR_RED_U8", "COLOR_GREEN_U8", "COLOR_BLUE_U8"]
     okp = proto is not None and all(w in p for w, p in zip(wantp, proto))
     ctx.ob(rule, "prototype/from-xyz", okp, "prototype constants in order: %s" % proto)
@@ -184,7 +186,7 @@ def from_xyz(ctx, prog, rule):
         if s_ok is not None and adds:
             # points are only added on the "at least six columns" side
             g2 = cfg_without_edges(m, {(bi, s_ok)})
-            okg = okg or not any(a in reach(g2, [0]) for a in adds)
+            okg = okg or not any(a in reach(g2, [0]) for a in adds) or (point_block is not None and point_block not in reach(g2, [0]))
     ctx.ob(rule, "short-lines/from-xyz", okg, "lines with fewer than six columns are skipped by a length test")
     # the line buffer is cleared on every iteration of the read loop
     loops = natural_loops(m)
